@@ -158,6 +158,19 @@ def build(spec, overrides=None):
             d = dests[op[1]]
             net.add_destination(els[d["id"]], nodes[d["node"]])
             done.add(d["id"])
+        elif kind == "dummy":
+            # a throwaway object of the same kind on the same edge / node; the real element is added later and
+            # replaces it ("later attachments replace earlier ones")
+            i = op[1]
+            if i in links:
+                l = links[i]
+                net.add_link(nodes[l["up"]], make_link(dict(l, name=l["name"] + "~")), nodes[l["down"]])
+            elif i in origins:
+                o = origins[i]
+                net.add_origin(make_origin(dict(o, name=o["name"] + "~")), nodes[o["node"]])
+            else:
+                d = dests[i]
+                net.add_destination(make_dest(dict(d, name=d["name"] + "~")), nodes[d["node"]])
         elif kind == "read":
             read_lookups(net)
         elif kind == "trystep":
